@@ -145,6 +145,8 @@ def apply_dev(argv, opt, val):
     if opt == 'DUP-FIRST-WIRE':
         i = argv.index('-w')
         v = argv[i + 1].split(',')
+        if len(v) < 8:
+            return argv            # the first wire is itself a malformed deviation: nothing to duplicate
         tag = v[:-8]
         n, c, r = v[-8], v[-7:-1], v[-1]
         if val == 'reversed':
